@@ -189,16 +189,13 @@ var plyNamePool = []string{"vertex", "face", "edge", "x", "y", "z", "red", "vert
 const plyNameAlphabet = "abcxyzXYZ019_-.#"
 
 // genPLYName draws an element / property name: a whitespace-free token.  Names that end
-// in "end_header" are a separate class (see kf "ply-name-end-header").
+// in "end_header" are a class of their own (a header reader that looks for the terminator
+// as a suffix instead of a line stops early: replay fixed-ply-name-end-header).
 func genPLYName(t *rapid.T, label string) string {
 	switch k := rapid.IntRange(0, 19).Draw(t, label+".kind"); {
 	case k < 8:
 		return rapid.SampledFrom(plyNamePool).Draw(t, label+".pool")
 	case k == 8:
-		if kit.Excluded("ply-name-end-header") {
-			kit.CountExcluded("ply-name-end-header")
-			return "end_header_"
-		}
 		return rapid.SampledFrom([]string{"end_header", "xend_header", "my_end_header"}).Draw(t, label+".eh")
 	default:
 		n := rapid.IntRange(1, 8).Draw(t, label+".len")
@@ -275,7 +272,10 @@ func genListLen(t *rapid.T, lk plyKind, label string) int {
 
 func genPLY(t *rapid.T) plyCase {
 	c := plyCase{Format: rapid.IntRange(0, 2).Draw(t, "format"), Chunk: genChunk(t)}
-	ne := rapid.IntRange(0, 4).Draw(t, "nelems")
+	ne := rapid.IntRange(1, 4).Draw(t, "nelems")
+	if oneIn(t, 30, "noelems") {
+		ne = 0
+	}
 	for e := 0; e < ne; e++ {
 		el := plyElem{Name: genPLYName(t, fmt.Sprintf("e%d.name", e))}
 		np := rapid.IntRange(1, 4).Draw(t, "nprops")
@@ -563,10 +563,6 @@ func checkPLY(c plyCase, o *kit.Obs) error {
 		return err
 	}
 	if c.hasEndHeaderName() {
-		if kit.Excluded("ply-name-end-header") {
-			kit.CountExcluded("ply-name-end-header")
-			return nil
-		}
 		o.Label("name:ends-in-end_header")
 	}
 	ascii := c.Format == 0
@@ -584,9 +580,36 @@ func checkPLY(c plyCase, o *kit.Obs) error {
 				o.Label("zero-count:middle")
 			}
 		}
-		for _, p := range el.Props {
+		for pi, p := range el.Props {
+			o.Label("type:" + plyTypes[p.Type].name)
 			if p.Len != 0 {
 				lists++
+				o.Label("lentype:" + plyTypes[p.Len-1].name)
+			}
+			k := plyTypes[p.Type].kind
+			for _, row := range el.Rows {
+				if pi >= len(row) {
+					continue
+				}
+				if p.Len != 0 {
+					switch n := len(row[pi]); {
+					case n == 0:
+						o.Label("list:empty")
+					case n == plyTypes[p.Len-1].kind.maxLen():
+						o.Label("list:at-length-type-limit")
+					case n >= 127:
+						o.Label("list:long")
+					}
+				}
+				for _, raw := range row[pi] {
+					if isNaNRaw(k, raw) {
+						o.Label("value:nan")
+					} else if k == kF32 && uint32(raw)&0x7fffffff == 0x7f800000 || k == kF64 && raw&^(1<<63) == 0x7ff0000000000000 {
+						o.Label("value:inf")
+					} else if k == kF32 && uint32(raw) == 0x80000000 || k == kF64 && raw == 1<<63 {
+						o.Label("value:neg-zero")
+					}
+				}
 			}
 		}
 	}
